@@ -41,7 +41,16 @@ pub fn gen_c05(r: &mut Rng, out: &mut dyn Write) {
     if r.chance(1, 2) {
         let name = *r.pick(&CTORS_SCALE);
         if name == "from_tai_parts" {
-            writeln!(out, "wrap_p {} {} {}", name, r.range_i64(-100, 100), r.next() % 3_155_760_000_000_000_000).unwrap();
+            // raw parts: the nanosecond field may hold up to 5.8 centuries (a u64), the century field any i16
+            const NPC: u64 = 3_155_760_000_000_000_000;
+            let ns = match r.below(4) {
+                0 => r.next() % NPC,
+                1 => *r.pick(&[NPC - 1, NPC, NPC + 1, 2 * NPC - 1, 2 * NPC, 2 * NPC + 5, 3 * NPC, 5 * NPC, 5 * NPC + 1, u64::MAX - 1, u64::MAX]),
+                2 => (1 + r.below(5)) * NPC + r.below(3),
+                _ => r.next(),
+            };
+            let c = match r.below(4) { 0 => *r.pick(&[i16::MIN as i64, i16::MIN as i64 + 1, -1, 0, 1, i16::MAX as i64 - 5, i16::MAX as i64 - 1, i16::MAX as i64]), _ => r.range_i64(-100, 100) };
+            writeln!(out, "wrap_p {} {} {}", name, c, ns).unwrap();
         } else {
             writeln!(out, "wrap_c {} {}", name, f2s(count(r, name.ends_with("_days")))).unwrap();
         }
